@@ -539,4 +539,104 @@ where
     | [] => rfl
     | t :: ts => by simp only [Table.beqL, Table.beq_refl t, Table.beqL_refl ts, Bool.and_self]
 
+/-! ## sessions -/
+
+/-- `s'` holds everything `s` holds, at the same positions (nothing retained is ever rewritten) -/
+def Store.Extends (s' s : Store) : Prop :=
+  (∃ cs, s'.codes = s.codes ++ cs) ∧ (∃ bs, s'.blobs = s.blobs ++ bs)
+
+theorem Store.Extends.refl (s : Store) : s.Extends s := ⟨⟨[], by simp⟩, ⟨[], by simp⟩⟩
+
+theorem Store.Extends.trans {a b c : Store} (h1 : a.Extends b) (h2 : b.Extends c) : a.Extends c := by
+  obtain ⟨⟨c1, hc1⟩, ⟨b1, hb1⟩⟩ := h1
+  obtain ⟨⟨c2, hc2⟩, ⟨b2, hb2⟩⟩ := h2
+  exact ⟨⟨c2 ++ c1, by rw [hc1, hc2, List.append_assoc]⟩, ⟨b2 ++ b1, by rw [hb1, hb2, List.append_assoc]⟩⟩
+
+theorem Store.retain_extends (s : Store) (r : Option Res) : (s.retain r).Extends s := by
+  cases r with
+  | none => exact Store.Extends.refl s
+  | some r =>
+    cases r with
+    | bytes w => exact ⟨⟨[], by simp [Store.retain]⟩, ⟨[w], rfl⟩⟩
+    | code q => exact ⟨⟨[q], rfl⟩, ⟨[], by simp [Store.retain]⟩⟩
+    | failed e => exact Store.Extends.refl s
+
+theorem run_nil (s : Store) : run s [] = (s, []) := rfl
+
+theorem run_cons (s : Store) (op : Op) (ops : List Op) :
+    run s (op :: ops) = ((run (s.retain (op.eval s)) ops).1, op.eval s :: (run (s.retain (op.eval s)) ops).2) := rfl
+
+theorem run_extends (ops : List Op) : ∀ s : Store, (run s ops).1.Extends s := by
+  induction ops with
+  | nil => intro s; exact Store.Extends.refl s
+  | cons op ops ih =>
+    intro s
+    rw [run_cons]
+    exact (ih _).trans (Store.retain_extends s _)
+
+theorem run_append (a b : List Op) : ∀ s : Store,
+    run s (a ++ b) = ((run (run s a).1 b).1, (run s a).2 ++ (run (run s a).1 b).2) := by
+  induction a with
+  | nil => intro s; simp [run_nil]
+  | cons op a ih =>
+    intro s
+    rw [List.cons_append, run_cons, ih, run_cons]
+    simp
+
+theorem run_length (ops : List Op) : ∀ s : Store, (run s ops).2.length = ops.length := by
+  induction ops with
+  | nil => intro s; rfl
+  | cons op ops ih => intro s; rw [run_cons]; simp [ih]
+
+/-- an operation that could be performed on `s` gives the same result on every store that
+    extends `s` -/
+theorem Op.eval_mono {s s' : Store} (h : s'.Extends s) (op : Op) (r : Res)
+    (he : op.eval s = some r) : op.eval s' = some r := by
+  obtain ⟨⟨cs, hc⟩, ⟨bs, hb⟩⟩ := h
+  cases op with
+  | marshal i =>
+    simp only [Op.eval, Option.map_eq_some_iff] at he ⊢
+    obtain ⟨p, hp, hr⟩ := he
+    refine ⟨p, ?_, hr⟩
+    rw [hc, List.getElem?_append_left]
+    · exact hp
+    · exact (List.getElem?_eq_some_iff.mp hp).1
+  | unmarshal j =>
+    simp only [Op.eval, Option.map_eq_some_iff] at he ⊢
+    obtain ⟨w, hw, hr⟩ := he
+    refine ⟨w, ?_, hr⟩
+    rw [hb, List.getElem?_append_left]
+    · exact hw
+    · exact (List.getElem?_eq_some_iff.mp hw).1
+
+/-- what call number `k` of a session returned: the operation evaluated on the store as it
+    was after the first `k` calls -/
+theorem run_result_at (ops : List Op) : ∀ (s : Store) (k : Nat) (op : Op), ops[k]? = some op →
+    (run s ops).2[k]? = some (op.eval (run s (ops.take k)).1) := by
+  induction ops with
+  | nil => intro s k op h; simp at h
+  | cons o ops ih =>
+    intro s k op h
+    cases k with
+    | zero =>
+      simp only [List.getElem?_cons_zero, Option.some.injEq] at h
+      subst h
+      simp [run_cons, run_nil]
+    | succ k =>
+      simp only [List.getElem?_cons_succ] at h
+      rw [run_cons, List.take_succ_cons, run_cons]
+      simp only [List.getElem?_cons_succ]
+      exact ih _ k op h
+
+/-- splitting a session at call `k` -/
+theorem run_split (ops : List Op) (s : Store) (k : Nat) (op : Op) (h : ops[k]? = some op) :
+    (run s ops).1 =
+      (run ((run s (ops.take k)).1.retain (op.eval (run s (ops.take k)).1)) (ops.drop (k + 1))).1 := by
+  have hk : k < ops.length := (List.getElem?_eq_some_iff.mp h).1
+  have hop : ops[k] = op := (List.getElem?_eq_some_iff.mp h).2
+  have hsplit : ops = ops.take k ++ op :: ops.drop (k + 1) := by
+    rw [← hop, List.getElem_cons_drop, List.take_append_drop]
+  conv => lhs; rw [hsplit]
+  rw [run_append, run_cons]
+
 end Risor.C17
